@@ -341,6 +341,27 @@ func scanValKind(t types.Type) string {
 	return t.String()
 }
 
+// withCallees: fn and the functions of its package it calls statically, depth levels down (fn first)
+func withCallees(w *core.World, fn *core.FuncInfo, depth int) []*core.FuncInfo {
+	out := []*core.FuncInfo{fn}
+	seen := map[*core.FuncInfo]bool{fn: true}
+	frontier := []*core.FuncInfo{fn}
+	for d := 0; d < depth; d++ {
+		var next []*core.FuncInfo
+		for _, f := range frontier {
+			for _, cs := range w.Calls(f) {
+				if h := w.Info(cs.Static); h != nil && h.Pkg == fn.Pkg && h.Decl.Body != nil && !seen[h] {
+					seen[h] = true
+					out = append(out, h)
+					next = append(next, h)
+				}
+			}
+		}
+		frontier = next
+	}
+	return out
+}
+
 // readerCase describes what ColumnImage.UnmarshalJSON does for one JDBC code.
 type readerCase struct {
 	asserts   []string // asserted dynamic types
@@ -357,40 +378,95 @@ func readerTable(w *core.World) (map[string]*readerCase, *core.FuncInfo) {
 		return nil, nil
 	}
 	info := fn.Pkg.TypesInfo
+	// the switch over the column type: in UnmarshalJSON itself or in the decoding helper it hands the value to
 	tab, _ := caseTable(fn, constLabel(info, "JDBCType"))
+	tabFn := fn
+	for _, g := range withCallees(w, fn, 2)[1:] {
+		if t2, _ := caseTable(g, constLabel(info, "JDBCType")); len(t2) > len(tab) {
+			tab, tabFn = t2, g
+		}
+	}
 	out := map[string]*readerCase{}
 	for code, cc := range tab {
 		rc := &readerCase{}
+		// what the case does, including per-kind helpers of the package it returns through
+		nodes := []ast.Node{cc}
 		ast.Inspect(cc, func(n ast.Node) bool {
-			switch x := n.(type) {
-			case *ast.TypeAssertExpr:
-				if x.Type != nil {
-					rc.asserts = append(rc.asserts, core.ExprString(x.Type))
-				}
-			case *ast.CallExpr:
-				f := core.Callee(info, x)
-				if f != nil && f.Pkg() != nil {
-					if f.Pkg().Path() == "encoding/base64" && strings.HasPrefix(f.Name(), "Decode") {
-						rc.base64 = true
-					}
-					if f.Pkg().Path() == "time" && f.Name() == "Parse" && len(x.Args) == 2 {
-						if c := core.ConstObj(info, x.Args[0]); c != nil {
-							rc.timeParse = c.Name()
+			if c, ok := n.(*ast.CallExpr); ok {
+				if h := w.Info(core.Callee(info, c)); h != nil && h.Pkg == fn.Pkg && h != tabFn && h != fn && h.Decl.Body != nil {
+					nodes = append(nodes, h.Decl.Body)
+					// the helper hands its parameter through: `return value` there is the pass-through
+					ast.Inspect(h.Decl.Body, func(m ast.Node) bool {
+						if rs, ok := m.(*ast.ReturnStmt); ok && len(rs.Results) >= 1 {
+							if id, ok := ast.Unparen(rs.Results[0]).(*ast.Ident); ok {
+								for _, p := range paramObjs(h) {
+									if info.Uses[id] == p {
+										rc.passthru = true
+									}
+								}
+							}
 						}
-					}
-				}
-				if tv, ok := info.Types[x.Fun]; ok && tv.IsType() {
-					rc.conv = tv.Type.String()
-				}
-			case *ast.AssignStmt:
-				if len(x.Rhs) == 1 {
-					if id, ok := x.Rhs[0].(*ast.Ident); ok && id.Name == "value" {
-						rc.passthru = true
-					}
+						return true
+					})
 				}
 			}
 			return true
 		})
+		// `s, ok := v.(T)` tests, it does not assert
+		commaOk := map[*ast.TypeAssertExpr]bool{}
+		for _, root := range nodes {
+			ast.Inspect(root, func(n ast.Node) bool {
+				if as, ok := n.(*ast.AssignStmt); ok && len(as.Lhs) == 2 && len(as.Rhs) == 1 {
+					if ta, ok := ast.Unparen(as.Rhs[0]).(*ast.TypeAssertExpr); ok {
+						commaOk[ta] = true
+					}
+				}
+				return true
+			})
+		}
+		for _, root := range nodes {
+			ast.Inspect(root, func(n ast.Node) bool {
+				switch x := n.(type) {
+				case *ast.TypeAssertExpr:
+					if x.Type != nil && !commaOk[x] {
+						rc.asserts = append(rc.asserts, core.ExprString(x.Type))
+					}
+				case *ast.CallExpr:
+					f := core.Callee(info, x)
+					if f != nil && f.Pkg() != nil {
+						if f.Pkg().Path() == "encoding/base64" && strings.HasPrefix(f.Name(), "Decode") {
+							rc.base64 = true
+						}
+						if f.Pkg().Path() == "time" && f.Name() == "Parse" && len(x.Args) == 2 {
+							if c := core.ConstObj(info, x.Args[0]); c != nil {
+								rc.timeParse = c.Name()
+							}
+						}
+					}
+					if tv, ok := info.Types[x.Fun]; ok && tv.IsType() {
+						rc.conv = tv.Type.String()
+					}
+				case *ast.AssignStmt:
+					if len(x.Rhs) == 1 {
+						if id, ok := x.Rhs[0].(*ast.Ident); ok && id.Name == "value" {
+							rc.passthru = true
+						}
+					}
+				case *ast.ReturnStmt:
+					// `return value, nil` in the case itself: the decoded JSON value as it is
+					if root == ast.Node(cc) && len(x.Results) >= 1 {
+						if id, ok := ast.Unparen(x.Results[0]).(*ast.Ident); ok {
+							for _, p := range paramObjs(tabFn) {
+								if info.Uses[id] == p {
+									rc.passthru = true
+								}
+							}
+						}
+					}
+				}
+				return true
+			})
+		}
 		rc.asserts = uniq(rc.asserts)
 		out[code] = rc
 	}
@@ -414,16 +490,18 @@ func checkC08(r *core.Run) {
 	writerTimeLayout := ""
 	if mfn := methodInfo(w, w.NamedType("pkg/datasource/sql/types", "ColumnImage"), "MarshalJSON"); mfn != nil {
 		r.Fn(mfn)
-		ast.Inspect(mfn.Decl.Body, func(n ast.Node) bool {
-			if c, ok := n.(*ast.CallExpr); ok {
-				if f := core.Callee(mfn.Pkg.TypesInfo, c); f != nil && f.Name() == "Format" && core.RecvNamed(f) != nil && core.RecvNamed(f).Obj().Name() == "Time" && len(c.Args) == 1 {
-					if k := core.ConstObj(mfn.Pkg.TypesInfo, c.Args[0]); k != nil {
-						writerTimeLayout = k.Name()
+		for _, g := range withCallees(w, mfn, 2) {
+			ast.Inspect(g.Decl.Body, func(n ast.Node) bool {
+				if c, ok := n.(*ast.CallExpr); ok {
+					if f := core.Callee(mfn.Pkg.TypesInfo, c); f != nil && f.Name() == "Format" && core.RecvNamed(f) != nil && core.RecvNamed(f).Obj().Name() == "Time" && len(c.Args) == 1 {
+						if k := core.ConstObj(mfn.Pkg.TypesInfo, c.Args[0]); k != nil {
+							writerTimeLayout = k.Name()
+						}
 					}
 				}
-			}
-			return true
-		})
+				return true
+			})
+		}
 	}
 	// the domain: DATA_TYPE values MySQL's information_schema reports (the table-meta loader's source of
 	// ColumnMeta.DatabaseTypeString); spellings such as INTEGER, NUMERIC, REAL never appear there
@@ -473,6 +551,68 @@ func checkC08(r *core.Run) {
 			}
 			return true
 		})
+	}
+	// the same, written as `if isText(c.ColumnType) { ... []byte(v) }` with a predicate of the package whose switch
+	// answers true for the text codes (in MarshalJSON or a helper it calls)
+	if mfn := methodInfo(w, w.NamedType("pkg/datasource/sql/types", "ColumnImage"), "MarshalJSON"); mfn != nil {
+		minfo := mfn.Pkg.TypesInfo
+		for _, g := range withCallees(w, mfn, 2) {
+			ast.Inspect(g.Decl.Body, func(n ast.Node) bool {
+				is, ok := n.(*ast.IfStmt)
+				if !ok {
+					return true
+				}
+				pc, ok := ast.Unparen(is.Cond).(*ast.CallExpr)
+				if !ok {
+					return true
+				}
+				pred := w.Info(core.Callee(minfo, pc))
+				if pred == nil || pred.Pkg != mfn.Pkg || pred.Decl.Body == nil {
+					return true
+				}
+				// the conversion is a statement of the if body itself (unconditional there)
+				conv := false
+				for _, st := range is.Body.List {
+					var exprs []ast.Expr
+					switch y := st.(type) {
+					case *ast.AssignStmt:
+						exprs = y.Rhs
+					case *ast.ReturnStmt:
+						exprs = y.Results
+					}
+					for _, e := range exprs {
+						if c, ok := ast.Unparen(e).(*ast.CallExpr); ok {
+							if tv, ok := minfo.Types[c.Fun]; ok && tv.IsType() && tv.Type.String() == "[]byte" {
+								conv = true
+							}
+						}
+					}
+				}
+				if !conv {
+					return true
+				}
+				ast.Inspect(pred.Decl.Body, func(m ast.Node) bool {
+					cc, ok := m.(*ast.CaseClause)
+					if !ok || len(cc.Body) != 1 {
+						return true
+					}
+					rs, ok := cc.Body[0].(*ast.ReturnStmt)
+					if !ok || len(rs.Results) != 1 {
+						return true
+					}
+					if v := core.ConstVal(minfo, rs.Results[0]); v == nil || v.Kind() != constant.Bool || !constant.BoolVal(v) {
+						return true
+					}
+					for _, e := range cc.List {
+						if c := core.ConstObj(minfo, e); c != nil {
+							textEncoded[c.Name()] = true
+						}
+					}
+					return true
+				})
+				return true
+			})
+		}
 	}
 	jsonProduces := map[string]bool{"bool": true, "float64": true, "string": true, "[]interface{}": true, "map[string]interface{}": true, "[]any": true, "map[string]any": true}
 	for _, s := range strs {
